@@ -21,6 +21,11 @@ MIXED = {"block-cross": 50, "block-multi": 10, "block-repeat": 10, "c-exclude": 
          "scenario:crossed-within-uncrossed-source": 1, "scenario:weight-uncrossed": 1, "scenario:pin": 1,
          "scenario:run-length": 1, "scenario:uncrossed-transition": 1}
 
+# checks that give the round-structure skeleton a triple share see fewer scenario designs: the skeleton classes are floored instead
+MIXED_ROUND = dict({k: v for k, v in MIXED.items() if not k.startswith("scenario:")},
+                   **{"round-skeleton": 50, "round:extra=q": 3, "round:extra=1": 3, "round:how=repeat": 10, "round:how=min": 10,
+                      "round:weighted=crossed": 5})
+
 FLOORS = {
     "C01": dict(MIXED, **{"UniGen:ok": 50, "UniformGen:ok": 50, "models:complete": 50, "models:capped": 10}),
     "C02": dict(MIXED, **{"real-loop": 50, "unsat": 10}),
@@ -28,12 +33,12 @@ FLOORS = {
     "C04": dict(MIXED, **{"needs-rejection": 50}),
     "C05": {"rejection": 100, "no-rejection": 100, "c-pin": 20, "c-atmost": 20, "weights-uncrossed": 50,
             "has-transition": 50, "scenario:repeat-leftover": 1, "block-multi": 20},
-    "C06": dict(MIXED, **{"count-checked": 10, "count-not-checked:rejections": 10, "unsat": 10}),
+    "C06": dict(MIXED_ROUND, **{"count-checked": 10, "count-not-checked:rejections": 10, "unsat": 10}),
     "C07": dict(MIXED, **{"membership-mode": 20, "c-atleast": 2}),
     "C08": dict(MIXED, **{"RandomGen:returned>0": 50, "UniGen:returned>0": 50, "CMSGen:returned>0": 50,
                           "IterateSATGen:returned>0": 50, "scenario:order-constraint-partial": 1, "c-latin": 2,
                           "c-sequential": 2}),
-    "C09": dict(MIXED, **{"requested-more": 100, "requested-fewer": 50, "requested-all": 20, "has-copies": 10}),
+    "C09": dict(MIXED_ROUND, **{"requested-more": 100, "requested-fewer": 50, "requested-all": 20, "has-copies": 10}),
     "C10": {"rel-EQ": 100, "rel-GT": 100, "rel-LT": 100, "k>n": 50, "k=0": 50, "k=n": 50, "0<k<n": 100, "requests=2": 50,
             "requests=3": 50, "n>12": 50},
     "C11": {"op-not": 500, "op-and": 500, "op-or": 500, "op-if": 500, "op-iff": 500, "shared-subformula": 200,
